@@ -38,7 +38,15 @@ class ASTNode(ABC, Generic[T]):
             if not i.startswith("__")
             # ignore "token" for comparison (and parent check)
             and i
-            not in ["replace", "parent", "parent_class", "var", "token", "comment"]
+            not in [
+                "replace",
+                "parent",
+                "parent_class",
+                "file_name",
+                "var",
+                "token",
+                "comment",
+            ]
         )
 
     def parent(
